@@ -132,6 +132,30 @@ class PairSoft(Calculator):
         self.results = {"energy": e, "forces": f}
 
 
+class PairSpecies(PairSoft):
+    """PairSoft whose pair strength depends on the two atomic numbers: swapping the species of two
+    atoms changes the energy even when the set of positions is the same."""
+
+    def calculate(self, atoms=None, properties=("energy",), system_changes=all_changes):
+        Calculator.calculate(self, atoms, properties, system_changes)
+        self.evaluations += 1
+        pos = np.asarray(self.atoms.positions, dtype=float)
+        w = 1.0 + 0.02 * np.asarray(self.atoms.numbers, dtype=float)
+        n = len(pos)
+        d = pos - self.centre
+        e = 0.5 * self.k * float((w[:, None] * d * d).sum()) if n else 0.0
+        f = -self.k * w[:, None] * d if n else np.zeros((0, 3))
+        for i in range(n):
+            for j in range(i + 1, n):
+                rij = pos[i] - pos[j]
+                g = self.eps * w[i] * w[j] * np.exp(-(rij @ rij) / self.s**2)
+                e += g
+                fij = 2 * g / self.s**2 * rij
+                f[i] += fij
+                f[j] -= fij
+        self.results = {"energy": float(e), "forces": f}
+
+
 class PerAtomState(PairSoft):
     """Neighbour-list style: keeps a per-atom array that is (re)built only when ASE reports that
     ``numbers`` changed (as ASE's LennardJones / EMT do) and is then indexed by atom."""
